@@ -166,7 +166,7 @@ def neutral(c, term):
     return not term_parity(c, term) and not any(term_charge(c, term))
 
 
-def outer_op(c, names, i0, labels=None):
+def outer_op(c, names, i0):
     """npc n-site operator ``names[0]_{i0} x names[1]_{i0+1} x ...`` with legs p0, p0*, p1, ..."""
     import tenpy.linalg.np_conserved as npc
     ops = [c.site(i0 + r).get_op(nm).replace_labels(['p', 'p*'], ['p%d' % r, 'p%d*' % r]) for r, nm in enumerate(names)]
@@ -233,12 +233,11 @@ def cases(kind, c, tier):
                 if n == 2:
                     yield dict(pattern=pat, i0=lo, array=True)
     elif kind == 'term':
-        pos = W[:4]
         P = max(len(pool(s)) for s in c.cell)
         for m in (1, 2, 3):
-            if m == 3 and P > (3 if q else 6):
+            if m == 3 and (P > 3 or c.env) and q:
                 continue
-            for t in itertools.product(letters(c, pos), repeat=m):
+            for t in itertools.product(letters(c, W[:3] if m == 3 and q else W[:4]), repeat=m):
                 if not term_parity(c, t):
                     yield dict(term=t, autoJW=True)
                 if m > 1 and any(is_fermionic(c.site(i), op) for op, i in t):
@@ -294,7 +293,8 @@ def cases(kind, c, tier):
         shapes = [(0,), (0, 1), (0, 2)]
         for shL, shR in itertools.product(shapes, repeat=2):
             span = shL[-1] + shR[-1] + 2
-            if span > len(W):
+            P = max(len(pool(s)) for s in c.cell)
+            if span > len(W) or len(shL) + len(shR) > (2 if P > 3 else 3 if c.env else 4) - q:
                 continue
             for pat in patterns(c, len(shL) + len(shR)):
                 for i_L in range(lo, hi - span + 1):
@@ -387,10 +387,8 @@ def check_ev(c, a):
         got, ref = M.full_contraction(a['full_contraction']), D.amp([])
         return [] if close(got, ref) else [('env:full_contraction', 'got %r, dense <bra|ket>*norms = %r' % (got, ref))]
     sites = a['sites'] if a['sites'] is not None else list(range(c.L))
-    names = a['ops'] if isinstance(a['ops'], list) else [a['ops']]
-    nm = lambda i: names[(i % c.L if not c.finite else i) % len(names)]  # noqa: E731
     got = M.expectation_value(_ops(c, a['ops'], a.get('array')), a['sites'])
-    ref = [D.term([(nm(i), i)]) for i in sites]
+    ref = [D.term([(at(c, a['ops'], i), i)]) for i in sites]
     return [] if close(got, ref) else [('expectation_value:1-site', 'got %s\ndense %s' % (got, np.array(ref)))]
 
 
@@ -431,14 +429,16 @@ def check_tsum(c, a):
     from tenpy.networks.terms import TermList
     terms = [[tuple(x) for x in t] for t in a['terms']]
     st = strengths(a['seed'], len(terms))
-    got, _ = c.M.expectation_value_terms_sum(TermList(terms, st))
+    rng = max(max(i for _, i in t) - min(i for _, i in t) for t in terms)
+    key = 'expectation_value_terms_sum:%s' % ('env' if c.env else c.bc if c.finite else 'infinite:range=%d' % rng)
+    try:
+        got, _ = c.M.expectation_value_terms_sum(TermList(terms, st))
+    except Exception as e:  # noqa: BLE001
+        return [('%s:exception:%s' % (key, type(e).__name__), '%s: %s\n%s' % (terms, e, traceback.format_exc()[-1200:]))]
     ref = sum(s * c.D.term(t) for s, t in zip(st, terms))
     if c.env:  # (documented: without the norms)
         ref = ref / (c.M.bra.norm * c.M.ket.norm)
-    if close(got, ref):
-        return []
-    rng = max(max(i for _, i in t) - min(i for _, i in t) for t in terms)
-    return [('expectation_value_terms_sum:%s' % ('env' if c.env else c.bc if c.finite else 'infinite:range=%d' % rng), '%s: got %r, dense sum %r' % (terms, got, ref))]
+    return [] if close(got, ref) else [(key, '%s: got %r, dense sum %r' % (terms, got, ref))]
 
 
 def corr_ref(c, op1, op2, i, j, opstr, sof):
@@ -727,6 +727,8 @@ def state_key(spec):
 
 
 def units(tier, seed, label):
+    if label == 'PY':  # the pure-Python configuration repeats the quick enumeration
+        tier = 'quick'
     us = []
     for si, spec in enumerate(state_specs(tier)):
         sh = Shape(spec)
@@ -748,7 +750,7 @@ def run_unit(unit):
         traces += n
         outcomes.add('%s:%s:%s' % (kind, state_key(spec), 'ok' if not res else 'violation'))
         for key, what in res:
-            key = '%s [%s]' % (key, state_key(spec)) if 'exception' in key else key
+            key = '%s [%s]' % (key, state_key(spec)) if key.startswith(kind + ':') else key  # (unexpected exceptions)
             per_key[key] = per_key.get(key, 0) + 1
             if per_key[key] <= 2 and len(viol) < 16:
                 viol.append(dict(key=key, what='state %s: %s' % (spec, what[:3000]), case=dict(kind=kind, spec=spec, args=args, seed=seed)))
